@@ -26,4 +26,6 @@ let table : (string * (BinNums.coq_N list -> BinNums.coq_N list)) list = [
   ("mon_c03", PkCorr.mon_c03);
   ("mon_c04", PkCorr.mon_c04);
   ("chk_c04", PkCorr.chk_c04);
+  ("mon_c01", MonDuo.mon_c01);
+  ("chk_duo", MonDuo.chk_duo);
 ]
